@@ -17,7 +17,8 @@ Definition OT := list (list Q).
 Definition Arg := list Z.              (* all extra arguments of one example, flattened *)
 Definition net := dna -> option Arg -> nat -> OT.
 
-Inductive target := TNone | TInt (t : Z) | TSlice (lo hi : Z).
+(* target = None | int | slice(lo, hi, step) (bounds as slice.indices(T) gives them) *)
+Inductive target := TNone | TInt (t : Z) | TSlice (lo hi st : Z).
 Inductive mode := MRaw | MAttr (t : target) (hyp : bool).
 
 (* one call  saturation_mutagenesis(model, X, args, start, end, batch_size, target, hypothetical,
@@ -150,14 +151,18 @@ Definition ism_raw_g (fixA fixB : bool) (c : call)
 
 End ISM.
 
-(* o[target] flattened (target-major) *)
+(* number of rows of o[lo:hi:st] *)
+Definition slice_count (lo hi st : Z) : nat := Z.to_nat ((hi - lo + st - 1) / st).
+
+(* o[target] flattened (target-major); a slice takes rows lo, lo+st, ... below hi *)
 Definition tsel (t : target) (o : OT) : res (list Q) :=
   let T := Z.of_nat (length o) in
   match t with
   | TNone => Ok (concat o)
   | TInt z => do r <- pyidx (length o) z ;; Ok (nth r o [])
-  | TSlice lo hi => ensure (0 <=? lo) && (lo <? hi) && (hi <=? T) ;;
-                    Ok (concat (firstn (Z.to_nat (hi - lo)) (skipn (Z.to_nat lo) o)))
+  | TSlice lo hi st =>
+      ensure (0 <=? lo) && (lo <? hi) && (hi <=? T) && (1 <=? st) ;;
+      Ok (concat (tab (slice_count lo hi st) (fun i => nth (Z.to_nat lo + i * Z.to_nat st) o [])))
   end.
 
 Definition at4 (t : list (list (list (list Q)))) (i c w j : nat) : Q :=
